@@ -120,3 +120,46 @@ Proof.
   repeat (destruct Hin as [Hin|Hin]; [injection Hin as _ <-; reflexivity|]). contradiction.
 Qed.
 Print Assumptions C04_get_shard_is_the_transcribed_one.
+
+(* templates fetched from PEER collectors (ipfix/memcache_rpc.go; the anchor "templates fetched from peers are inserted under the
+   requesting (id, address)"): the local cache after a fetch is the local map with the peer's entry for exactly the requested
+   (address, id) put in front, or unchanged when the peer has none; so a look-up of the requested key gives the template that
+   exporter announced to the peer, and every other key (other exporters, other ids) decodes as before *)
+From VF Require Model.PeerFetch Proofs.PeerFetchProofs Gen.Rpc.
+Theorem C04_peer_fetch_refines : forall local peer ml mp id a, refines local ml -> refines peer mp ->
+  exists local', PeerFetch.peer_fetch local peer id a = Ok local' /\
+    refines local' (match amap_get a (id mod 65536) mp with Some t => ((a, id mod 65536), t) :: ml | None => ml end).
+Proof. exact PeerFetchProofs.peer_fetch_refines. Qed.
+Print Assumptions C04_peer_fetch_refines.
+
+Theorem C04_peer_fetch_installs_the_peers_template : forall local peer ml mp id a t, refines local ml -> refines peer mp ->
+  amap_get a (id mod 65536) mp = Some t ->
+  exists local', PeerFetch.peer_fetch local peer id a = Ok local' /\ cc_retrieve local' id a = Ok (Some t).
+Proof. exact PeerFetchProofs.peer_fetch_installs_the_peers_template. Qed.
+Print Assumptions C04_peer_fetch_installs_the_peers_template.
+
+Theorem C04_peer_fetch_frame : forall local peer ml mp id a id' a', refines local ml -> refines peer mp ->
+  (a', id' mod 65536) <> (a, id mod 65536) ->
+  exists local', PeerFetch.peer_fetch local peer id a = Ok local' /\ cc_retrieve local' id' a' = cc_retrieve local id' a'.
+Proof. exact PeerFetchProofs.peer_fetch_frame. Qed.
+Print Assumptions C04_peer_fetch_frame.
+
+(* the code IS that fetch (regenerated from the source on every run, Gen/Rpc.v): the server answers with its own look-up of exactly
+   the requested (id, address); the client has every answer decoded into a record made fresh in that call; the loop inserts the
+   answer to a request under that request's (id, address) *)
+Theorem C04_peer_fetch_is_the_modelled_one : Gen.Rpc.rpc_facts =
+  [("server_get", "*resp = r.mCache.retrieve(req.ID, req.IP)"); ("client_call", "IRPC.Get(req)"); ("client_reply", "fresh");
+   ("loop_fetch", "tr = Get(req)"); ("loop_insert", "insert(req.ID, req.IP, *tr)")]%string.
+Proof. reflexivity. Qed.
+Print Assumptions C04_peer_fetch_is_the_modelled_one.
+
+(* why "fresh" matters: net/rpc's gob decoder does not transmit zero fields and leaves them as the destination had them; into a
+   fresh record that is the answer, into one that still holds an earlier answer it is a mixture of two exporters' templates *)
+Theorem C04_gob_into_fresh_is_the_answer : forall (A : Type) (answer : list (option A)),
+  PeerFetch.gob_decode_into (repeat None (length answer)) answer = answer.
+Proof. exact @PeerFetchProofs.gob_into_fresh. Qed.
+Print Assumptions C04_gob_into_fresh_is_the_answer.
+
+Theorem C04_gob_into_used_is_a_mixture : forall (A : Type) (v : A), PeerFetch.gob_decode_into [Some v] [None] <> [None].
+Proof. exact @PeerFetchProofs.gob_into_used_differs. Qed.
+Print Assumptions C04_gob_into_used_is_a_mixture.
